@@ -9,7 +9,9 @@
    The theorems are parametric in the text object, hence cover every motion
    and text object at once; the text-object functions themselves are in
    Model/C08_TextObjects.v (tied by correspondence; their failure cases are
-   the subject of the _refuted theorems below). *)
+   the subject of C08_failed_motion_noop and of the _refuted theorems).
+   The model follows /repo as it is now (fix commits f3ffc71, e0cf816, 1019c4b);
+   the *_pinned definitions are the functions of the pinned commit. *)
 From Coq Require Import ZArith List Bool.
 From PTK Require Import Lib.Sx Lib.Py Model.Document Model.BufferEdit Model.C02_DocQueries
   Model.C08_ViOps Model.C08_TextObjects
@@ -26,8 +28,8 @@ Proof. intros; split; [apply op_yank_buf | apply op_yank_reg_buf]. Qed.
 Print Assumptions C08_yank_pure.
 
 (* The range of a character-wise object: it starts at the smaller end; it ends
-   at the larger end, +1 if inclusive, -1 if exclusive and the larger end is
-   in column 0. *)
+   at the larger end, +1 if inclusive, -1 if exclusive, non-empty and the
+   larger end is in column 0. *)
 Theorem C08_operator_range_charwise : forall d o,
   charwise (ttype o) ->
   let lo := Z.min (tstart o) (tend o) in
@@ -35,21 +37,21 @@ Theorem C08_operator_range_charwise : forall d o,
   fst (operator_range d o) = lo /\
   (ttype o = INCL -> snd (operator_range d o) = hi + 1) /\
   (ttype o = EXCL -> snd (operator_range d o) = hi \/
-                     (snd (operator_range d o) = hi - 1 /\
+                     (snd (operator_range d o) = hi - 1 /\ lo < hi /\
                       snd (translate_index_to_position d (hi + dcur d)) = 0)).
 Proof. exact operator_range_charwise. Qed.
 Print Assumptions C08_operator_range_charwise.
 
 (* Adjacent to the cursor: a motion (one end is the cursor) gives a range
    with start <= cursor <= end, except that the exclusive-column-0 rule may
-   leave the line ending before the cursor out (end = cursor - 1, cursor in
-   column 0). *)
+   leave the line ending before the cursor out of a backward motion (end =
+   cursor - 1, cursor in column 0, start before it). *)
 Theorem C08_range_adjacent : forall d o,
   charwise (ttype o) ->
   Z.min (tstart o) (tend o) <= 0 <= Z.max (tstart o) (tend o) ->
   fst (operator_range d o) <= 0 /\
   (0 <= snd (operator_range d o) \/
-   (snd (operator_range d o) = -1 /\ ttype o = EXCL /\
+   (snd (operator_range d o) = -1 /\ ttype o = EXCL /\ fst (operator_range d o) < 0 /\
     snd (translate_index_to_position d (dcur d)) = 0)).
 Proof. exact operator_range_adjacent. Qed.
 Print Assumptions C08_range_adjacent.
@@ -72,7 +74,7 @@ Proof. exact op_delete_span. Qed.
 Print Assumptions C08_delete_span.
 
 (* ... into a named register, when key_sequence[1] of the event the operator
-   body receives is a register name k (see C08_register_name_refuted). *)
+   body receives is a register name k (see C08_register_receives). *)
 Theorem C08_delete_span_register : forall delete_only st o ev k,
   charwise (ttype o) ->
   let b := vbuf st in
@@ -194,152 +196,125 @@ Theorem C08_reshape_frame : forall b f t,
 Proof. exact reshape_frame. Qed.
 Print Assumptions C08_reshape_frame.
 
-(* ------------------------------------------------------------------ *)
-(* "If the motion fails or spans nothing, the operator changes nothing":
-   false for the code as it is. *)
+(* The operator wrapper hands the operator's own key sequence " k d / " k c
+   to the body (fix f3ffc71), so the typed register k receives the text. *)
+Theorem C08_register_receives : forall (delete_only : bool) st o n k,
+  charwise (ttype o) -> is_regname k = true ->
+  let ev := mkev n [34; k; if delete_only then 100 else 99] in
+  let b := vbuf st in
+  let a := bcur b + fst (operator_range (bdoc b) o) in
+  let e := bcur b + snd (operator_range (bdoc b) o) in
+  0 <= a -> a < e -> e <= len (btext b) ->
+  vreg (snd (op_delete delete_only true st o ev)) =
+    Some (k, mkcd (firstn (Z.to_nat (e - a)) (skipn (Z.to_nat a) (btext b))) 0) /\
+  vclip (snd (op_delete delete_only true st o ev)) = vclip st /\
+  fst (op_delete delete_only true st o ev) = 0.
+Proof.
+  intros delete_only st o n k Hc Hk ev b a e Ha Hae He.
+  pose proof (op_delete_span_reg delete_only st o ev k Hc) as H. cbv zeta in H.
+  fold b in H. fold a e in H. rewrite (H Ha Hae He eq_refl Hk).
+  cbn [fst snd vreg vclip]. repeat split; reflexivity.
+Qed.
+Print Assumptions C08_register_receives.
 
-(* An in-bounds exclusive object with an EMPTY range: delete makes the text
-   LONGER ("abc def", cursor 0, TextObject(0) -> "abc dbc def"). *)
-Theorem C08_empty_is_noop_refuted :
+(* ------------------------------------------------------------------ *)
+(* "If the motion fails or spans nothing, the operator changes nothing". *)
+
+(* Every non-linewise object with an EMPTY range (any start/end, in or out of
+   bounds): d, c and their register variants, y, the register yank and the case operators
+   leave text, cursor, clipboard and registers as they were (c still enters
+   insert mode). *)
+Theorem C08_empty_is_noop : forall delete_only with_register F st o ev,
+  is_linew (ttype o) = false -> 0 <= bcur (vbuf st) ->
+  snd (operator_range (bdoc (vbuf st)) o) <= fst (operator_range (bdoc (vbuf st)) o) ->
+  op_delete delete_only with_register st o ev =
+    (0, mkvst (vbuf st) (vclip st) (vreg st) (if delete_only then vins st else true)) /\
+  op_yank st o ev = (0, st) /\
+  snd (op_yank_reg st o ev) = st /\
+  op_transform F st o ev = (0, st).
+Proof.
+  intros dl wr F st o ev Hl Hc Hr. split; [apply op_delete_empty; assumption|].
+  split; [apply op_yank_empty; assumption|].
+  split; [apply op_yank_reg_empty; assumption|apply op_transform_empty; exact Hr].
+Qed.
+Print Assumptions C08_empty_is_noop.
+
+(* ... which the functions of the pinned commit did not satisfy: "abc def",
+   cursor 0, TextObject(0) -> "abc dbc def" (longer); at cursor 6 the two
+   characters around the cursor went. *)
+Theorem C08_empty_is_noop_pinned_refuted :
   exists text cur o,
     0 <= cur <= len text /\ ttype o = EXCL /\
     0 <= cur + tstart o <= len text /\ 0 <= cur + tend o <= len text /\
-    snd (operator_range (mkdoc text cur) o) <= fst (operator_range (mkdoc text cur) o) /\
-    snd (op_delete true false (st_of text cur) o (mkev 1 [])) <> st_of text cur /\
-    len text < len (btext (vbuf (snd (op_delete true false (st_of text cur) o (mkev 1 []))))).
-Proof. exact empty_range_not_noop. Qed.
-Print Assumptions C08_empty_is_noop_refuted.
+    snd (operator_range_pinned (mkdoc text cur) o) <= fst (operator_range_pinned (mkdoc text cur) o) /\
+    snd (op_delete_pinned true (st_of text cur) o) <> st_of text cur /\
+    len text < len (btext (vbuf (snd (op_delete_pinned true (st_of text cur) o)))).
+Proof. exact empty_range_not_noop_pinned. Qed.
+Print Assumptions C08_empty_is_noop_pinned_refuted.
 
-(* ... mid-line it deletes the two characters around the cursor, and a yank
-   overwrites the clipboard with them. *)
-Theorem C08_empty_deletes_two_refuted :
+Theorem C08_empty_deletes_two_pinned_refuted :
   exists text cur o,
     ttype o = EXCL /\ tstart o = 0 /\ tend o = 0 /\
-    op_delete true false (st_of text cur) o (mkev 1 []) =
+    op_delete_pinned true (st_of text cur) o =
     (0, mkvst (mkbuf [97; 98; 99; 32; 100] 5) (Some (mkcd [101; 102] 0)) None false).
-Proof. exact empty_range_deletes_two. Qed.
-Print Assumptions C08_empty_deletes_two_refuted.
+Proof. exact empty_range_deletes_two_pinned. Qed.
+Print Assumptions C08_empty_deletes_two_pinned_refuted.
 
-Theorem C08_empty_yank_refuted :
-  exists text cur o,
-    ttype o = EXCL /\ tstart o = 0 /\ tend o = 0 /\
-    vclip (snd (op_yank (st_of text cur) o (mkev 1 []))) <> None.
-Proof. exact empty_range_yank_sets_clipboard. Qed.
-Print Assumptions C08_empty_yank_refuted.
+(* Per text object (failed_noop m k: whenever the text-object function m reports
+   failure - for any document, cursor, count - operator k raises nothing and
+   leaves text, cursor, clipboard and registers alone): d, c, y, their
+   register variants and the case operators, for every text object whose
+   failure is an empty exclusive object. *)
+Theorem C08_failed_motion_noop : forall k, cut_or_case k ->
+  (forall ch, failed_noop (T_f ch) k /\ failed_noop (T_F ch) k /\
+              failed_noop (T_t ch) k /\ failed_noop (T_T ch) k) /\
+  (forall rev has ch bw, failed_noop (T_repeat rev has ch bw) k) /\
+  (forall W, failed_noop (T_b W) k /\ failed_noop (T_w W) k) /\
+  failed_noop T_h k /\ failed_noop T_l k /\ failed_noop T_dollar k /\
+  failed_noop T_zero k /\ failed_noop T_caret k /\ failed_noop T_bar k /\
+  failed_noop T_lbrace k /\ failed_noop T_rbrace k /\ failed_noop T_percent k /\
+  (forall W tr, failed_noop (T_word W tr) k) /\ failed_noop T_ap k /\
+  (forall l r inner, failed_noop (T_ci l r inner) k) /\ failed_noop T_gm k.
+Proof.
+  intros k Hk.
+  split; [intros ch; repeat apply conj;
+          [apply fam_f|apply fam_F|apply fam_t|apply fam_T]; exact Hk|].
+  split; [intros; apply fam_repeat; exact Hk|].
+  split; [intros W; split; [apply fam_b|apply fam_w]; exact Hk|].
+  split; [apply fam_h; exact Hk|]. split; [apply fam_l; exact Hk|].
+  split; [apply fam_dollar; exact Hk|]. split; [apply fam_zero; exact Hk|].
+  split; [apply fam_caret; exact Hk|]. split; [apply fam_bar; exact Hk|].
+  split; [apply fam_lbrace; exact Hk|]. split; [apply fam_rbrace; exact Hk|].
+  split; [apply fam_percent; exact Hk|].
+  split; [intros; apply fam_word; exact Hk|]. split; [apply fam_ap; exact Hk|].
+  split; [intros; apply fam_ci; exact Hk|apply fam_gm; exact Hk].
+Qed.
+Print Assumptions C08_failed_motion_noop.
 
-(* Per family of failing text objects (failed_noop m k: whenever the text-object
-   function m reports failure, operator k leaves text, cursor, clipboard and
-   registers alone).  One witness each; the harness replays them on /repo. *)
+(* Still false in /repo (known findings): the inclusive defaults of e E ge gE
+   g_ (one character goes / changes case), j and k at the buffer boundary
+   (the cursor line goes), and the line operators > < gq on any failed motion
+   (the cursor line is indented / reshaped). *)
 Theorem C08_failed_motion_noop_refuted :
-  ~ failed_noop (T_F 120) del /\ ~ failed_noop (T_T 120) del /\
-  ~ failed_noop (T_f 120) del /\ ~ failed_noop (T_t 120) del /\
-  ~ failed_noop (T_repeat false false 120 false) del /\
-  ~ failed_noop (T_repeat true true 120 false) del /\
-  ~ failed_noop (T_b false) del /\ ~ failed_noop (T_b true) del /\
-  ~ failed_noop T_h del /\ ~ failed_noop T_l del /\ ~ failed_noop T_dollar del /\
-  ~ failed_noop (T_w false) del /\
-  ~ failed_noop T_zero del /\ ~ failed_noop T_caret del /\ ~ failed_noop T_bar del /\
   ~ failed_noop (T_e false) del /\ ~ failed_noop (T_ge false) del /\ ~ failed_noop T_g_ del /\
   ~ failed_noop T_j del /\ ~ failed_noop T_k del /\
-  ~ failed_noop (T_word false false) del /\
-  ~ failed_noop (T_ci 40 41 true) del /\ ~ failed_noop (T_ci 34 34 false) del /\
-  ~ failed_noop T_lbrace del /\ ~ failed_noop T_rbrace del /\ ~ failed_noop T_percent del.
-Proof.
-  repeat apply conj.
-  - exact failed_backward_find_refuted.
-  - exact failed_backward_till_refuted.
-  - exact failed_forward_find_refuted.
-  - exact failed_forward_till_refuted.
-  - exact failed_repeat_find_refuted.
-  - exact failed_repeat_find_rev_refuted.
-  - exact backward_word_at_start_refuted.
-  - exact backward_WORD_at_start_refuted.
-  - exact left_at_line_start_refuted.
-  - exact right_on_empty_line_refuted.
-  - exact end_of_line_on_empty_line_refuted.
-  - exact word_forward_at_end_refuted.
-  - exact start_of_line_at_col0_refuted.
-  - exact soft_start_of_line_refuted.
-  - exact column_same_refuted.
-  - exact word_end_failed_refuted.
-  - exact word_end_backward_failed_refuted.
-  - exact last_non_blank_on_blank_line_refuted.
-  - exact down_on_last_line_refuted.
-  - exact up_on_first_line_refuted.
-  - exact word_object_on_blank_refuted.
-  - exact bracket_object_absent_refuted.
-  - exact quote_object_absent_refuted.
-  - exact paragraph_back_at_start_refuted.
-  - exact paragraph_forward_at_end_refuted.
-  - exact percent_out_of_range_refuted.
-Qed.
-Print Assumptions C08_failed_motion_noop_refuted.
-
-(* the other operators on a failed motion: yank overwrites the clipboard,
-   change edits, > < indent the cursor line, gq appends a newline, the case
-   operators act on one character (inclusive default) or one line (j, k) *)
-Theorem C08_failed_motion_other_operators_refuted :
-  ~ failed_noop (T_f 120) OpYank /\ ~ failed_noop (T_F 120) (OpDelete false false) /\
   ~ failed_noop (T_F 120) OpIndent /\ ~ failed_noop (T_F 120) OpUnindent /\
   ~ failed_noop (T_F 120) OpReshape /\
   ~ failed_noop (T_e false) (OpTransform 3) /\ ~ failed_noop T_j (OpTransform 3).
 Proof.
   repeat apply conj.
-  - exact failed_find_yank_refuted.
-  - exact failed_find_change_refuted.
+  - exact word_end_failed_refuted.
+  - exact word_end_backward_failed_refuted.
+  - exact last_non_blank_on_blank_line_refuted.
+  - exact down_on_last_line_refuted.
+  - exact up_on_first_line_refuted.
   - exact failed_find_indent_refuted.
   - exact failed_find_unindent_refuted.
   - exact failed_find_reshape_refuted.
   - exact failed_word_end_transform_refuted.
   - exact failed_down_transform_refuted.
 Qed.
-Print Assumptions C08_failed_motion_other_operators_refuted.
-
-(* What holds today: the case operators ignore every failed EXCLUSIVE motion. *)
-Theorem C08_failed_motion_transform_noop : forall ch f,
-  failed_noop (T_f ch) (OpTransform f) /\ failed_noop (T_F ch) (OpTransform f) /\
-  failed_noop (T_t ch) (OpTransform f) /\ failed_noop (T_b false) (OpTransform f) /\
-  failed_noop (T_b true) (OpTransform f) /\ failed_noop T_h (OpTransform f) /\
-  failed_noop T_l (OpTransform f) /\ failed_noop T_dollar (OpTransform f) /\
-  failed_noop T_zero (OpTransform f) /\ failed_noop T_caret (OpTransform f) /\
-  failed_noop T_bar (OpTransform f) /\ failed_noop (T_w false) (OpTransform f) /\
-  failed_noop (T_w true) (OpTransform f).
-Proof. exact transform_failed_find_noop. Qed.
-Print Assumptions C08_failed_motion_transform_noop.
-
-(* The named-register operators take the register name from key_sequence[1]
-   of the TEXT OBJECT's event: with a one-key motion they raise IndexError
-   (after the text was already cut, for d and c). *)
-Theorem C08_register_name_refuted :
-  exists text cur o,
-    fst (op_yank_reg (st_of text cur) o (mkev 1 [119])) = 2 /\
-    fst (op_delete true true (st_of text cur) o (mkev 1 [119])) = 2 /\
-    btext (vbuf (snd (op_delete true true (st_of text cur) o (mkev 1 [119])))) <> text.
-Proof.
-  exists [97; 98; 99; 32; 100; 101; 102], 4, (mkto 3 0 EXCL).
-  vm_compute. repeat split. intros H; discriminate H.
-Qed.
-Print Assumptions C08_register_name_refuted.
-
-(* ------------------------------------------------------------------ *)
-(* After fixes/C08-empty-span-noop.patch (operator_range_fixed / to_cut_fixed):
-   an empty range is a no-op for delete, and non-empty ranges are cut exactly
-   as before. *)
-Theorem C08_empty_is_noop_after_fix : forall st o,
-  is_linew (ttype o) = false -> 0 <= bcur (vbuf st) ->
-  snd (operator_range_fixed (bdoc (vbuf st)) o) <= fst (operator_range_fixed (bdoc (vbuf st)) o) ->
-  op_delete_fixed true st o = (0, st).
-Proof. exact op_delete_fixed_empty. Qed.
-Print Assumptions C08_empty_is_noop_after_fix.
-
-Theorem C08_fix_preserves_nonempty : forall b o,
-  tstart o <> tend o ->
-  fst (operator_range (bdoc b) o) < snd (operator_range (bdoc b) o) ->
-  operator_range_fixed (bdoc b) o = operator_range (bdoc b) o /\ to_cut_fixed b o = to_cut b o.
-Proof.
-  intros b o H Hr. split; [apply operator_range_fixed_same; exact H | apply to_cut_fixed_same; assumption].
-Qed.
-Print Assumptions C08_fix_preserves_nonempty.
+Print Assumptions C08_failed_motion_noop_refuted.
 
 (* ------------------------------------------------------------------ *)
 (* Tables regenerated from the repo on every run (gen/gen_t_c08.py). *)
